@@ -239,3 +239,68 @@ pub fn quant_of(q: Quant) -> &'static str {
         Quant::ZeroOrMore => "*",
     }
 }
+
+/// Re-kinds id arguments positionally by the golden grammar of `opcode` (a Builder parameter of type
+/// `spirv::Word` is an IdRef, IdScope or IdMemorySemantics depending on the operand slot it fills).
+pub fn rekind_ids(opcode: u16, args: Vec<Arg>) -> Vec<Arg> {
+    let g = golden();
+    let Some(gi) = g.lookup(opcode) else { return args };
+    let mut out = Vec::with_capacity(args.len());
+    let mut i = 0usize;
+    let id_payload = |a: &Arg| match a {
+        Arg::IdRef(v) | Arg::IdScope(v) | Arg::IdMemSem(v) => Some(*v),
+        _ => None,
+    };
+    for (kind, q) in gi.value_operands() {
+        loop {
+            if i >= args.len() {
+                break;
+            }
+            match kind.as_str() {
+                "IdScope" => {
+                    out.push(id_payload(&args[i]).map(Arg::IdScope).unwrap_or_else(|| args[i].clone()));
+                    i += 1;
+                }
+                "IdMemorySemantics" => {
+                    out.push(id_payload(&args[i]).map(Arg::IdMemSem).unwrap_or_else(|| args[i].clone()));
+                    i += 1;
+                }
+                k if k.starts_with("Pair") => {
+                    out.push(args[i].clone());
+                    i += 1;
+                    if i < args.len() {
+                        out.push(args[i].clone());
+                        i += 1;
+                    }
+                }
+                k if g.params.contains_key(k) => {
+                    let n = match &args[i] {
+                        Arg::Enum(_, n) => g.enum_params(k, *n).len(),
+                        Arg::Mask(_, n) => g.mask_params(k, *n).len(),
+                        _ => 0,
+                    };
+                    out.push(args[i].clone());
+                    i += 1;
+                    for _ in 0..n {
+                        if i < args.len() {
+                            out.push(args[i].clone());
+                            i += 1;
+                        }
+                    }
+                }
+                _ => {
+                    out.push(args[i].clone());
+                    i += 1;
+                }
+            }
+            if q != Quant::ZeroOrMore {
+                break;
+            }
+        }
+    }
+    while i < args.len() {
+        out.push(args[i].clone());
+        i += 1;
+    }
+    out
+}
